@@ -1392,6 +1392,25 @@ def r2(ctx):
             sz = Sanit(fi, roles, msg, roles_map=rmap, repo=repo)
             for st in stores(fi.node, into_defs=True):
                 # forwarded message's appended acks
+                if st.path == f"{msg}.acks" and st.kind == "assign" and isinstance(st.value, (ast.Tuple, ast.List)) \
+                        and not st.value.elts:
+                    # the appended acks are emptied: allowed only where they were moved into the PacketAck body first
+                    # (same block installs a Packets list built from exactly these acks)
+                    blk, _ = _block_of(st.node)
+                    moved = False
+                    for s2 in (blk or []):
+                        for ins in stores(s2, into_defs=False):
+                            if ins.kind == "setitem" and is_const_sub(ins.target, "Packets") and isinstance(ins.value, ast.Name):
+                                for a_ in stores(ast.Module(body=list(blk), type_ignores=[]), into_defs=False):
+                                    v_ = a_.value
+                                    if a_.path == ins.value.id and a_.kind == "assign" and \
+                                            isinstance(v_, (ast.ListComp, ast.GeneratorExp)) and len(v_.generators) == 1 \
+                                            and ap(v_.generators[0].iter) == f"{msg}.acks":
+                                        moved = True
+                    ctx.ob("C05.R2", f"{fi.qual}: appended acks are cleared only after being moved into the PacketAck body",
+                           moved, ctx.w(fi, st.node), f"`{norm(st.node)}` throws the (translated) appended acks away: they never "
+                           f"reach the endpoint they are meant for")
+                    continue
                 if st.path == f"{msg}.acks" and st.kind in ("assign", "augassign"):
                     n_sinks += 1
                     ok, why = sz.sanitised(st.value)
@@ -1480,6 +1499,21 @@ def r2(ctx):
                         and r.value.value is False and path_fact(r, lst.id, rp.node) is False]
                 ctx.ob("C05.R2", "_rewrite_packet_ack reports an emptied PacketAck (returns False)", len(empt) >= 1, rp.where,
                        "an all-injected PacketAck is not reported to the caller and goes out empty")
+        # a return that leaves the ORIGINAL blocks in the message (no install on its path) is only safe when the
+        # caller then refuses to send - which it does exactly when no appended ack survives either
+        rcfg = CFG(rp.node)
+        inst_nodes = [n for st in installs for n in rcfg.nodes_for(st.node)]
+        unfiltered = rcfg.reachable([rcfg.entry], avoid=lambda n: n in inst_nodes)
+        for r in [x for x in walk(rp.node) if isinstance(x, ast.Return)]:
+            if not any(n in unfiltered for n in rcfg.nodes_for(r)):
+                continue
+            falsy = r.value is None or (isinstance(r.value, ast.Constant) and not r.value.value)
+            ok = falsy and path_fact(r, f"{rmsg}.acks", rp.node) is False
+            ctx.ob("C05.R2", f"{rp.name}: a return that leaves the original blocks in place happens only when no "
+                             f"appended ack survives", ok, ctx.w(rp, r),
+                   f"`{norm(r)}` is reached without installing the filtered block list and without knowing that "
+                   f"{rmsg}.acks is empty: prepare_message still sends a PacketAck that carries surviving appended acks, "
+                   f"with its original blocks - acks for proxy-injected packets, untranslated - reaching the endpoint")
         # caller does not send it: the function that asked for the rewrite returns False, and so does every
         # function between it and prepare_message
         for f, c in rp_calls:
@@ -1910,6 +1944,53 @@ def check_resend(ctx, rule):
                    any("resend_every" in src(p_) for p_ in parts), ctx.w(ru, cond.test),
                    "the hold-back interval is not the circuit's resend_every")
     stamps = [st for st in stores(ru.node) if st.path.endswith(".last_resent")]
+    # elapsed time is not measured with naive local wall-clock time (`datetime.now()` without a tz): the difference
+    # of two such values is not elapsed time across a UTC-offset change (DST)
+    def naive_now(e, fn, depth=0):
+        out = []
+        for n in ast.walk(e):
+            if not isinstance(n, ast.Call):
+                continue
+            p_ = ap(n.func) or ""
+            if p_.split(".")[-2:] == ["datetime", "now"] and not n.args and not n.keywords:
+                out.append(norm(n))
+            elif depth < 2 and not n.args and not n.keywords:
+                g = None
+                if isinstance(n.func, ast.Name):
+                    cands = [x for x in repo.funcs.get(n.func.id, []) if x.module is fn.module and x.cls is None and x.parent_fn is None]
+                    g = cands[0] if len(cands) == 1 else None
+                else:
+                    g = resolve_any_call(repo, fn, n)
+                if g is not None and g != fn:
+                    for r_ in walk(g.node):
+                        if isinstance(r_, ast.Return) and r_.value is not None:
+                            out.extend(naive_now(r_.value, g, depth + 1))
+        return out
+    for c in sends:
+        conds_ = [(cond, ru) for cond in conditions(c.node, ru.node)] + \
+            ([(cond, outer[0]) for cond in conditions(outer[1], outer[0].node)] if outer is not None else [])
+        for cond, cf in conds_:
+            parts = expand(cond.test, 0, cf)
+            if any("last_resent" in src(p_) for p_ in parts):
+                bad = sorted({x for p_ in parts for x in naive_now(p_, cf)})
+                ctx.ob(rule, "Circuit.resend_unacked: the cadence test does not read naive local time", not bad, ctx.w(cf, cond.test),
+                       f"elapsed time is computed from {bad}: naive local datetimes; when the UTC offset changes (end of DST) "
+                       f"the difference is off by the offset and no resend / give-up happens for that long")
+    for st in stamps:
+        bad = naive_now(st.value, ru) if st.value is not None else []
+        ctx.ob(rule, "Circuit.resend_unacked: last_resent is not restarted with naive local time", not bad, ctx.w(ru, st.node),
+               f"stamped with {bad}")
+    for fn_, st_i, _via, _cm in insertion_sites(repo):
+        val_ = st_i.value
+        if isinstance(val_, ast.Name) and single_assign(fn_.node, val_.id) is not None:
+            val_ = single_assign(fn_.node, val_.id)
+        lr = next((k.value for k in val_.keywords if k.arg == "last_resent"), None) if isinstance(val_, ast.Call) else None
+        if lr is None and isinstance(val_, ast.Call) and val_.args:
+            lr = val_.args[0]
+        if lr is not None:
+            bad = naive_now(lr, fn_)
+            ctx.ob(rule, "Circuit.send: last_resent is not stamped with naive local time", not bad, ctx.w(fn_, st_i.node),
+                   f"stamped with {bad}")
     stamp_nodes = [n for st in stamps for n in cfg.nodes_for(st.node)]
     reach_s = cfg.reachable(head, avoid=lambda n: n in stamp_nodes)
     ctx.ob(rule, "Circuit.resend_unacked: every retransmission restarts the interval (last_resent updated)",
@@ -1997,6 +2078,12 @@ def _in_same_block(stmt, node) -> bool:
 
 # ============================================================================ R5 collect before forwarding
 
+def try_contexts_of(node) -> list:
+    """The ast.Try statements in whose *body* node lies (innermost first)."""
+    from ..core import try_contexts
+    return [tc.node for tc in try_contexts(node) if tc.section == "body"]
+
+
 def parsed_message_vars(repo, fi: FuncInfo) -> set:
     """Locals of fi that hold the message decoded from this datagram: assigned from `*.deserialize(...)`, or
     from a helper of the own class that returns such a local."""
@@ -2034,6 +2121,49 @@ def r5(ctx):
                recv == f"{lookup_var(hp, 'region_by_circuit_addr')}.circuit", ctx.w(hp, c), f"receiver {recv}")
     cn = [n for c in collects for n in cfg_nodes(cfg, c)]
     reach = cfg.reachable([cfg.entry], avoid=lambda n: n in cn)
+    # the UDP-ban refusal: a received packet's acks are real even when its message is not passed on
+    from ..core import handler_names, handler_catches_all
+    refusals = []       # (node in hp that raises the refusal, raised class name or None, description)
+    for c in calls(hp.node, into_defs=False):
+        h = resolve_method_call(repo, hp, c)
+        if h is not None and h != hp and find_calls(h.node, "validate_udp_msg", into_defs=False):
+            raised = [x for x in walk(h.node) if isinstance(x, ast.Raise)]
+            if raised:
+                exc = raised[0].exc
+                cname = call_attr(exc) if isinstance(exc, ast.Call) else (ap(exc) or "").split(".")[-1] if exc is not None else None
+                refusals.append((c, cname, norm(c)))
+    for x in walk(hp.node):
+        if isinstance(x, ast.Raise) and any(isinstance(e, ast.Call) and call_attr(e) == "validate_udp_msg" and not pol
+                                            for e, pol in facts(x, hp.node)):
+            refusals.append((x, None, norm(x)))
+    msgs_ = parsed_message_vars(repo, hp)
+    for node, cname, desc in refusals:
+        nn = cfg.nodes_for(node) if isinstance(node, ast.stmt) else cfg_nodes(cfg, node)
+        ctx.ob("C05.R5", "handle_proxied_packet: the UDP-ban refusal comes after collect_acks", not any(n in reach for n in nn),
+               ctx.w(hp, node), f"`{desc}` can refuse the packet before its acks were collected: acks appended to a "
+               f"UDP-banned packet are lost (an acked injected packet is retransmitted until its budget runs out)")
+
+        def drops_first(stmts):
+            for s_ in stmts:
+                if any(call_attr(c_) == "drop_message" and c_.args and ap(c_.args[0]) in msgs_ for c_ in calls(s_, into_defs=False)):
+                    return True
+                if isinstance(s_, (ast.Raise, ast.Return)):
+                    return False
+            return False
+        through_drop = False
+        if isinstance(node, ast.Raise):
+            blk, _ = _block_of(node)
+            through_drop = blk is not None and drops_first(blk)
+        else:
+            for tc in try_contexts_of(node):
+                for h_ in tc.handlers:
+                    if handler_catches_all(h_) or (cname is not None and cname in handler_names(h_)):
+                        through_drop = through_drop or drops_first(h_.body)
+        ctx.ob("C05.R5", "handle_proxied_packet: a refused (UDP-banned) packet is discarded through drop_message",
+               through_drop, ctx.w(hp, node),
+               f"the refusal `{desc}` leaves handle_proxied_packet without drop_message(message): the piggy-backed acks "
+               f"of the refused packet never reach the endpoint they are meant for and its sender is never acked")
+
     def is_target(c):
         a = call_attr(c)
         p = ap(c.func) or ""
